@@ -30,7 +30,7 @@ def t_skip(chk, ix):
 def run(chk, ix, tier):
     run_parallel(chk, [
         (T.t_run_hook, (("H1", "H5", "V6"),)),
-        (T.t_step, (("H3",),)),
+        (T.t_step, (("H3", "S1"),)),
         (T.t_scenario, (("H2", "V2", "R4"),)),
         (T.t_run_model, (("H4", "STM", "V6", "V4"),)),
         (t_skip, ()),
